@@ -10,12 +10,26 @@ PROPS = {}
 # ------------------------------------------------------------------------------------------------
 UNITS["core"] = dict(
     name="core",
-    stage=[("crate", "harness/core"), ("lock",), SYM],
+    stage=[("repo",), ("crate", "harness/core"), ("lock",), SYM],
     native_features=["replay"],
     functions=[
+        ("p2panda-core/src/prune.rs", "validate_prunable_backlink", r"pub fn validate_prunable_backlink"),
+        ("p2panda-core/src/operation.rs", "validate_backlink", r"pub fn validate_backlink"),
         ("p2panda-core/src/timestamp.rs", "HybridTimestamp::increment", r"pub fn increment\(self\) -> Self \{", r"impl HybridTimestamp"),
     ],
     harnesses=[
+        dict(name="c03::accepted_extends_chain", prop="C03", timeout=120,
+             encodes="validate_prunable_backlink, validate_backlink (no prune flag)",
+             bounds="arbitrary stored latest header (or none) with seq < u32::MAX, arbitrary incoming seq/author/backlink"),
+        dict(name="c03::extending_operation_accepted", prop="C03", timeout=120,
+             encodes="validate_prunable_backlink, validate_backlink (acceptance side)", bounds="as above, both prune flags"),
+        dict(name="c03::accepted_is_above_stored_height", prop="C03", timeout=120,
+             encodes="validate_prunable_backlink, validate_backlink", bounds="as above, no prune flag"),
+        dict(name="c05::pruned_prefix_never_returns", prop="C05", timeout=120,
+             encodes="validate_prunable_backlink (both prune flags) against the stored latest entry",
+             bounds="arbitrary stored latest seq < u32::MAX, arbitrary incoming seq, backlink absent/pred-hash/other"),
+        dict(name="c05::newer_prune_point_accepted", prop="C05", timeout=120,
+             encodes="validate_prunable_backlink (prune flag set)", bounds="as above"),
         dict(name="c18::increment_is_strict", prop="C18", tier="quick", timeout=60,
              encodes="HybridTimestamp::increment, LamportTimestamp::increment, Ord for HybridTimestamp",
              bounds="all u64 timestamp, lamport < u64::MAX, all u64 wall-clock readings"),
@@ -31,6 +45,32 @@ PROPS["C18"] = dict(
     assumptions=["lamport part < u64::MAX (overflow of the logical clock is outside the claim)"],
     bounds="single increment and chains of two increments; all 64-bit values",
     outside="chains longer than two (each link is an instance of the one-step harness); p2panda-net's increment_timestamp wrapper only forwards to this function",
+)
+
+_CORE_TB = ["Kani 0.68 / CBMC 6.11 / cadical",
+            "stub: Header::hash returns an arbitrary 32-byte constant (BLAKE3 of the stored predecessor is not bit-blasted)",
+            "stub: constant_time_eq_32 (inline asm) replaced by a plain comparison loop",
+            "stub: std::fmt::format returns an empty string (error messages are not the subject)",
+            "model: two distinct authors = default key and default key with overwritten compressed bytes (no point decompression)"]
+PROPS["C03"] = dict(
+    units=["core"], trusted_base=_CORE_TB,
+    assumptions=["stored latest seq < u32::MAX (past.seq_num + 1 overflows there: panic in debug, wrap in release)",
+                 "ingest passes the store's latest entry of the operation's own (author, log) and its prune flag (glue in the async fn, not encoded)"],
+    bounds="one inductive step from an arbitrary stored latest entry; all u32 sequence numbers; 3 backlink shapes (none / hash of predecessor / any other hash)",
+    outside="ingest_operation's async glue (single transaction around check+insert, dedup by id), SQLite ORDER BY seq_num DESC, equivocating authors",
+    level_text=("Bounded model checking of the real validate_prunable_backlink/validate_backlink as ONE INDUCTIVE STEP from an arbitrary stored "
+                "latest entry: accepted => exactly the next hash-linked entry; restart, gap, wrong author, wrong backlink are rejected; the "
+                "correctly linked next operation is accepted. Covers every u32 seq pair instead of the in-order log the tests feed."),
+    level_note="Trusted: Kani/CBMC; Header::hash stubbed to a symbolic constant (collision-freeness assumed); the async ingest glue and SQLite are outside the claim.",
+)
+PROPS["C05"] = dict(
+    units=["core"], trusted_base=_CORE_TB,
+    assumptions=["stored latest seq < u32::MAX", "heights never decrease (decided under C03), so after ingesting a prune point N the stored latest seq is >= N"],
+    bounds="one step from an arbitrary stored latest entry; all u32 sequence numbers; both prune flags",
+    outside="ingest_operation's async glue, LogPrune's SQL DELETE, SQLite",
+    level_text=("Bounded model checking of the real validate_prunable_backlink from an arbitrary stored latest entry: no operation, prune-flagged or not, "
+                "is accepted at or below the stored height, so nothing below an ingested prune point is ever stored again; newer prune points are still accepted."),
+    level_note="Trusted: Kani/CBMC; Header::hash stub; relies on C03's height monotonicity for the step from 'stored latest' to 'every ingested prune point'.",
 )
 
 PROPS["C18"].update(
